@@ -249,6 +249,17 @@ F("NUMPYDOC-wrapped-return-prose", ALLP,
   "the return entry",
   ["RetKept.base", "RetKept.stop", "RetKept.ann", "RetKept.def", "ConfigTransparent"], when={"k": "numpydoc", "wrap": True, "retwrap": True},
   ret=[True, ANY, "own", ANY, ANY, ANY])
+F("DOC-summary-reflowed-by-wrap", ALLP,
+  "docstring emitters with word wrap re-fill the whole summary as one paragraph: the line breaks of a several-line summary move "
+  "and a blank line between its paragraphs is lost (equal only modulo white space)",
+  ["SummaryKept", "ConfigTransparent"], obs=["multi~", "one~", ["doc"]], when={"k": DOC, "wrap": True})
+F("ARGPARSE-wrap-description-reflows", ALLP,
+  "argparse emitter with wrap_description: the description is re-filled, a several-line summary comes back with other line breaks",
+  ["SummaryKept", "Denotes.Description"], obs=["multi~", "one~"], when={"k": "argparse", "xo": "wrapdesc"})
+F("FUNC-separating-tab-indents-summary-continuation", ALLP,
+  "function / method with emit_separating_tab: the second and later lines of a several-line summary come back with extra "
+  "indentation (see FUNC-wrapped-summary-indent-drift)",
+  ["SummaryKept"], obs=["multi~"], when={"k": FUN, "xo": "septab"})
 F("FUNC-wrapped-summary-indent-drift", ALLP,
   "function / method with emit_separating_tab: a one-line summary longer than the line is wrapped, and the indentation of its "
   "continuation line grows with every emit / parse pass (the text never stabilises)",
